@@ -3,6 +3,7 @@ package verifharness
 import (
 	"encoding/json"
 	"fmt"
+	"math/rand"
 
 	ysgo "github.com/remieven/ysgo"
 	"github.com/remieven/ysgo/variable"
@@ -32,6 +33,7 @@ func coreRerun(m map[string]string) error {
 	}
 	c := cases[0]
 	var hosts [3]*host
+	var bys []*bystander
 	var texts []string
 	type handle struct {
 		s    *ysgo.Snapshot
@@ -83,7 +85,11 @@ func coreRerun(m map[string]string) error {
 			return fmt.Errorf("bad runner index %d", r)
 		}
 		if hosts[r-1] == nil {
+			// bystanders (see core_run.go): one created before and one after the runner
+			byRnd := rand.New(rand.NewSource(int64(len(bys)) + 1))
+			bys = append(bys, newBystander(c, byRnd))
 			h, err := newHost(c, texts)
+			bys = append(bys, newBystander(c, byRnd))
 			if err != nil {
 				f := false
 				if err := emit(recEvent{Ev: "loadfail", ID: c.ID, Ok: &f, Var: err.Error()}); err != nil {
@@ -94,6 +100,9 @@ func coreRerun(m map[string]string) error {
 			hosts[r-1] = h
 		}
 		h := hosts[r-1]
+		for _, b := range bys {
+			b.poke()
+		}
 		switch e.Ev {
 		case "next":
 			if e.In.Done {
@@ -101,6 +110,11 @@ func coreRerun(m map[string]string) error {
 			}
 			obs := h.next(e.In.Choice)
 			if err := emit(recEvent{Ev: "next", ID: c.ID, R: r, In: e.In, Obs: &obs}); err != nil {
+				return err
+			}
+		case "rebind":
+			h.rebind(e.What, e.Name, e.Kind)
+			if err := emit(recEvent{Ev: "rebind", ID: c.ID, R: r, What: e.What, Name: e.Name, Kind: e.Kind}); err != nil {
 				return err
 			}
 		case "hostset":
